@@ -520,6 +520,8 @@ impl Session {
                         receive_map.insert(stream_id, receive_tx);
                     }
 
+                    #[cfg(feature = "verif-hooks")]
+                    crate::verif::sched_point("handle_frame:syn_between_tables").await;
                     {
                         let mut streams = self.streams.write().await;
                         streams.insert(stream_id, stream.clone());
@@ -792,6 +794,8 @@ impl Session {
         let stream_id = self
             .stream_id
             .fetch_add(1, std::sync::atomic::Ordering::SeqCst);
+        #[cfg(feature = "verif-hooks")]
+        crate::verif::sched_point("open_stream:after_id").await;
         tracing::debug!(
             "[Session] Opening new stream {} (client={})",
             stream_id,
@@ -814,6 +818,8 @@ impl Session {
             receive_map.insert(stream_id, receive_tx);
         }
 
+        #[cfg(feature = "verif-hooks")]
+        crate::verif::sched_point("open_stream:between_tables").await;
         // Store the stream
         {
             let mut streams = self.streams.write().await;
